@@ -167,7 +167,9 @@ func (e *Engine) Load() error {
 		if c.fn == nil {
 			return fmt.Errorf("no SSA function for %s", c.Name)
 		}
-		e.byFn[c.fn] = c
+		if !c.Extra {
+			e.byFn[c.fn] = c
+		}
 		for _, ls := range c.Loops {
 			for _, n := range ls.invFns {
 				ls.invSSA = append(ls.invSSA, sp.Func(n))
